@@ -184,6 +184,28 @@ pub fn run(ctx: &Ctx, st: &mut Stats) -> Vec<Violation> {
     if !v.is_empty() {
         return v;
     }
+    // real-size images for a few primaries / directions
+    let sizes: Vec<(usize, usize)> = if ctx.light { vec![(257, 255)] } else if ctx.quick() { crate::gen::LARGE_SIZES[..8].to_vec() } else { crate::gen::LARGE_SIZES.to_vec() };
+    let seed0 = ctx.seed;
+    v.extend(par_sweep(ctx, st, sizes.len() as u64 * 2, |lo, hi, st| {
+        for j in lo..hi {
+            let (w, h) = sizes[(j / 2) as usize];
+            let case = Case { p: SUP_CP[1 + (j as usize * 3) % 10], to_709: j % 2 == 0, w, h, px: Px::Seeded { stratum: [0u8, 6][(j % 2) as usize], seed: mix64(seed0 ^ (j << 8) ^ 0x06) } };
+            let mut local = Stats::new();
+            local.sample_budget = 0;
+            if let Err(v) = check(&case, &mut local) {
+                return Some(v);
+            }
+            st.evaluations += 1;
+            st.comparisons += (w * h) as u64;
+            st.nontrivial_by_construction += 1;
+            st.class("large_images", 1);
+        }
+        None
+    }));
+    if !v.is_empty() {
+        return v;
+    }
     // enumerated: every primaries x direction x lattice on [-0.5,2]^3 (incl. white)
     let side: usize = if ctx.light { 11 } else { ctx.pick(33, 201) };
     let jobs: Vec<(CP, bool)> = SUP_CP.iter().flat_map(|p| [(*p, true), (*p, false)]).collect();
